@@ -11,9 +11,10 @@ open Sexp
 structure DriverState where
   reg : Registry
   nextRid : Nat
+  saved : Option Pickled := Option.none
   deriving Inhabited
 
-def DriverState.init : DriverState := ⟨Registry.empty, 1⟩
+def DriverState.init : DriverState := ⟨Registry.empty, 1, Option.none⟩
 
 /-! ### the predicate menu (mirrored in harness/universe.py `PREDICATES`) -/
 
@@ -402,7 +403,7 @@ def step (st : DriverState) (line : String) : DriverState × String :=
             let r' : Registry :=
               if ns == "" then { r with global := r.global ++ [(cls, ck, reg)] }
               else { r with named := r.named ++ [(ns, cls, ck, reg)] }
-            ({ reg := r', nextRid := st.nextRid + 1 }, "(ok)")
+            ({ st with reg := r', nextRid := st.nextRid + 1 }, "(ok)")
         | _, _, _, _ => (st, "bad-op")
     | .list [.atom "unreg", .str ns, ck, cls] =>
         match decNat ck, decNat cls with
@@ -415,6 +416,21 @@ def step (st : DriverState) (line : String) : DriverState × String :=
                 { r with named := r.named.filter fun e => !(e.1 == ns && e.2.1 == cls && e.2.2.1 == ck) }
             ({ st with reg := r' }, "(ok)")
         | _, _ => (st, "bad-op")
+    | .list [.atom "pickle_save", sx] =>
+        match evalSpec st sx with
+        | .bad _ => (st, "bad-op")
+        | .err e => (st, render (encErr e))
+        | .ok sp =>
+            match toPickle sp with
+            | .error e => (st, render (encErr e))
+            | .ok p => ({ st with saved := some p }, "(ok)")
+    | .list [.atom "pickle_load"] =>
+        match st.saved with
+        | Option.none => (st, "bad-op")
+        | some p =>
+            match fromPickle st.reg p with
+            | .error e => (st, render (encErr e))
+            | .ok sp => (st, render (encOk [encSpec sp]))
     | _ =>
         match evalOp st req with
         | .bad _ => (st, "bad-op")
